@@ -545,7 +545,7 @@ func c04Exec(raw json.RawMessage, res *RunResult) {
 			own = vm.RandSrc
 			err = vm.Run(d.term())
 			if err == nil {
-				if vm.RestInput != "" {
+				if strings.TrimSpace(vm.RestInput) != "" {
 					err = fmt.Errorf("<not fully consumed: rest=%q>", vm.RestInput)
 					return
 				}
